@@ -116,6 +116,23 @@ def is_size_bound(expr, defs, depth=0):
         return True
     if isinstance(expr, ast.Name) and expr.id in defs and len(defs[expr.id]) == 1:
         return is_size_bound(defs[expr.id][0], defs, depth + 1)
+    if isinstance(expr, ast.Name) and expr.id in defs and len(defs[expr.id]) == 2 and CURRENT.get('func') is not None:
+        # clamp idiom: `end = <x>` followed by `if end > self.size: end = self.size`
+        sizes = [d for d in defs[expr.id] if u(d) == 'self.size' or u(d).startswith('len(self.')]
+        if len(sizes) == 1:
+            lim = u(sizes[0])
+            for iff in ast.walk(CURRENT['func']):
+                if isinstance(iff, ast.If) and not iff.orelse and u(iff.test) in (
+                        '%s > %s' % (expr.id, lim), '%s >= %s' % (expr.id, lim), '%s < %s' % (lim, expr.id), '%s <= %s' % (lim, expr.id)):
+                    if any(isinstance(b_, ast.Assign) and u(b_.targets[0]) == expr.id and b_.value is sizes[0] for b_ in iff.body):
+                        return True
+    if isinstance(expr, ast.IfExp):
+        # `x if x < self.size else self.size`
+        t = u(expr.test)
+        for lim in ('self.size',):
+            if (t in ('%s < %s' % (u(expr.body), lim), '%s <= %s' % (u(expr.body), lim)) and u(expr.orelse) == lim) or \
+                    (t in ('%s > %s' % (u(expr.orelse), lim), '%s >= %s' % (u(expr.orelse), lim)) and u(expr.body) == lim):
+                return True
     if isinstance(expr, ast.Call) and isinstance(expr.func, ast.Attribute) and u(expr.func.value) == 'self' and HELPERS.get(expr.func.attr) is not None:
         # a private helper whose body is a single `return <expr>`: judge the returned expression
         return is_size_bound(HELPERS[expr.func.attr], {}, depth + 1)
@@ -146,6 +163,7 @@ def zero_padded_at_end(expr, defs, depth=0):
 
 
 HELPERS = {}
+CURRENT = {}
 
 
 def check_devices(run, repo):
@@ -167,6 +185,7 @@ def check_devices(run, repo):
             if fi.name == '__init__':
                 continue
             defs = local_defs(fi.node)
+            CURRENT['func'] = fi.node
             for node in ast.walk(fi.node):
                 if not (isinstance(node, ast.Subscript) and isinstance(node.value, ast.Attribute)
                         and u(node.value.value) == 'self' and node.value.attr in arrays):
@@ -248,38 +267,49 @@ def check_devices(run, repo):
     return n
 
 
-def check_hub(run, repo):
-    m = repo.module(HUB)
-    hub = m.classes.get('MemoryControllerHub')
-    if hub is None:
-        raise AnalysisError('anchor vanished: MemoryControllerHub')
+def check_hub_paths(run, repo, m, hub):
+    """C16-M / C16-U on the effect traces (M3) of the hub methods - what is looked up, what is returned or stored under which
+    condition - rather than on the statement shapes, so that guard clauses, temporaries, single-exit rewrites and explicit
+    `return None` make no difference."""
+    from ..effects import _SelfWalker
+    from ..flow import split_writes, guard_has, fmt
+
+    def walk(name):
+        fi = hub.methods.get(name)
+        if fi is None:
+            raise AnalysisError('anchor vanished: MemoryControllerHub.%s' % name)
+        return fi, _SelfWalker(repo, 'MemoryControllerHub', []).walk(fi, hub)
+    EFFECTS = ('ItemStore', 'ObjStore', 'ProcStore', 'SelfStore', 'ObjCall', 'DynCall', 'New', 'Raise')
     # ---- first match ---------------------------------------------------------------
-    fi = hub.methods.get('get_memory_by_address')
-    if fi is None:
-        raise AnalysisError('anchor vanished: get_memory_by_address')
-    body = [s for s in fi.node.body if not (isinstance(s, ast.Expr) and isinstance(s.value, ast.Constant))]
-    ok = True
-    why = ''
-    if len(body) == 1 and isinstance(body[0], ast.For):
-        loop = body[0]
-        it = u(loop.iter)
-        var = u(loop.target)
-        lb = loop.body
-        good = (it == 'self.memories' and len(lb) == 1 and isinstance(lb[0], ast.If) and not lb[0].orelse
-                and len(lb[0].body) == 1 and isinstance(lb[0].body[0], ast.Return) and u(lb[0].body[0].value) == var
-                and not loop.orelse)
-        if good:
-            t = lb[0].test
-            addr = fi.params()[1] if len(fi.params()) > 1 else 'address'
-            forms = {'%s.beginning <= %s < %s.end' % (var, addr, var),
-                     '%s.beginning <= %s and %s < %s.end' % (var, addr, addr, var),
-                     '%s >= %s.beginning and %s < %s.end' % (addr, var, addr, var)}
-            if u(t) not in forms:
-                ok, why = False, 'range test is `%s`, expected beginning <= address < end' % u(t)
-        else:
-            ok, why = False, 'loop is not `for m in self.memories: if <range test>: return m`'
+    fi, tr = walk('get_memory_by_address')
+    ok, why = True, ''
+    loops = [e for e in tr.events if e.kind == 'LoopEnter']
+    rets = [e for e in tr.events if e.kind == 'Return']
+    addr = ('name', fi.params()[1]) if len(fi.params()) > 1 else None
+    if len(loops) != 1 or loops[0].d['loop'][0] != 'for' or loops[0].d['loop'][3] != ('procattr', 'memories'):
+        ok, why = False, 'the lookup is not one loop over self.memories in registration order'
+    elif any(e.kind in EFFECTS or e.kind in ('Break', 'Continue') for e in tr.events):
+        ok, why = False, 'the lookup has side effects or leaves the loop early'
     else:
-        ok, why = False, 'body is not a single first-match loop over self.memories (extra state consulted or different order)'
+        lid = loops[0].d['loop'][1]
+        var = ('loopvar', loops[0].d['loop'][2], lid, ('procattr', 'memories'))
+        beg, end = ('getattr', var, 'beginning'), ('getattr', var, 'end')
+        forms = [('and', [('cmp', 'LtE', beg, addr), ('cmp', 'Lt', addr, end)]), ('and', [('cmp', 'Lt', addr, end), ('cmp', 'LtE', beg, addr)]),
+                 ('and', [('cmp', 'GtE', addr, beg), ('cmp', 'Lt', addr, end)]), ('and', [('cmp', 'Lt', addr, end), ('cmp', 'GtE', addr, beg)]),
+                 ('and', [('cmp', 'LtE', beg, addr), ('cmp', 'Gt', end, addr)]), ('and', [('cmp', 'GtE', addr, beg), ('cmp', 'Gt', end, addr)])]
+        inside = [e for e in rets if e.loops]
+        after = [e for e in rets if not e.loops]
+        if len(inside) != 1 or inside[0].d['value'] != var:
+            ok, why = False, 'the loop must return the controller it is looking at, exactly once'
+        else:
+            gs = [g for g in inside[0].guards]
+            nested = [t for t, pol, _ in gs if pol]
+            test = nested[0] if len(nested) == 1 else ('and', nested)
+            if len([g for g in gs if not g[1]]) or not any(repr(test) == repr(f) for f in forms):
+                ok, why = False, 'the range test is `%s`, expected beginning <= address < end' % ' and '.join(fmt(t) for t in nested)[:120]
+        for e in after:
+            if e.d['value'] != ('const', None):
+                ok, why = False, 'after the loop the lookup must report "no controller" (None)'
     run.instance('C16-M', 'get_memory_by_address', ok=ok, sample={'function': fi.qualname, 'shape': 'first match, ascending'})
     if not ok:
         run.violation('C16-M', m.relpath, fi.qualname, 'first-match lookup',
@@ -287,65 +317,86 @@ def check_hub(run, repo):
                       'address and consult nothing else: %s' % why)
     # ---- read / write paths -----------------------------------------------------------
     for name, is_write in (('__getitem__', False), ('__setitem__', True)):
-        fi = hub.methods.get(name)
-        if fi is None:
-            raise AnalysisError('anchor vanished: MemoryControllerHub.%s' % name)
+        fi, tr = walk(name)
         ok = True
-        subs = [n for n in ast.walk(fi.node) if isinstance(n, ast.Subscript) and u(n.value).endswith('.mem')
-                and isinstance(n.slice, ast.Tuple)]
-        lookups = [n for n in ast.walk(fi.node) if isinstance(n, ast.Call) and u(n.func) == 'self.get_memory_by_address']
-        if len(lookups) != 1 or len(subs) != 1:
+
+        def bad(construct, msg):
+            nonlocal ok
             ok = False
-            run.violation('C16-U', m.relpath, fi.qualname, 'delegation', 'expected exactly one controller lookup and one '
-                          'delegated device access, found %d / %d' % (len(lookups), len(subs)))
-        else:
-            defs = local_defs(fi.node)
-            pa = subst(lookups[0].args[0], defs)
-            mcname = None
-            for a in ast.walk(fi.node):
-                if isinstance(a, ast.Assign) and a.value is lookups[0]:
-                    mcname = u(a.targets[0])
-            off, sz = subs[0].slice.elts[0], subs[0].slice.elts[1]
-            if mcname is None or subst(off, defs) != '%s - %s.beginning' % (pa, mcname) or u(subs[0].value) != '%s.mem' % mcname:
-                ok = False
-                run.violation('C16-U', m.relpath, fi.qualname, 'device offset',
-                              'the device must be addressed at exactly (physical address - beginning); found offset `%s`' % u(off))
-            if subst(sz, defs) not in ('size', 'memaddrdesc_size[1]'):
-                ok = False
-                run.violation('C16-U', m.relpath, fi.qualname, 'device size', 'the device access size is `%s`, not the '
-                              'requested size' % u(sz))
-            g = dominating_tests(fi.node, subs[0])
-            found = lambda t, p: (p is True and u(t) in ('%s is not None' % mcname, mcname)) or \
-                                 (p is False and u(t) in ('%s is None' % mcname, 'not %s' % mcname))
-            if not any(found(t, p) for t, p in g):
-                ok = False
-                run.violation('C16-U', m.relpath, fi.qualname, 'unmapped test', 'the device access is not guarded by the '
-                              '"controller found" test (unmapped addresses must read 0 / ignore writes)')
+            run.violation('C16-U', m.relpath, fi.qualname, construct, msg)
+        looks = [e for e in tr.events if e.kind == 'ProcCall' and e.d['method'] == 'get_memory_by_address']
+        if len(looks) != 1 or len(looks[0].d['args']) != 1:
+            bad('delegation', 'expected exactly one controller lookup, found %d' % len(looks))
+            run.instance('C16-U', fi.qualname, obligations=4, ok=False, sample={'function': fi.qualname})
+            continue
+        L = looks[0].d['term']
+        pa = looks[0].d['args'][0]
+        key = ('name', fi.params()[1])
+        size_ok = lambda t: t in (('proj', key, 1), ('name', 'size'))
+        pa_ok = pa in (('getattr', ('getattr', ('proj', key, 0), 'paddress'), 'physicaladdress'),
+                       ('getattr', ('getattr', ('name', 'memaddrdesc'), 'paddress'), 'physicaladdress'))
+        if not pa_ok:
+            bad('looked-up address', 'the controller is looked up with `%s`, not the physical address of the descriptor' % fmt(pa)[:80])
+
+        def found(t, pol):
+            return (t == ('cmp', 'IsNot', L, ('const', None)) and pol) or (t == ('cmp', 'Is', L, ('const', None)) and not pol) or \
+                   (t == L and pol) or (t == ('not', L) and not pol)
+
+        def missing(t, pol):
+            return found(t, not pol)
+        is_found = lambda ev: any(found(t, p) for t, p, _ in ev.guards)
+        is_missing = lambda ev: any(missing(t, p) for t, p, _ in ev.guards)
+        want_index = ('tuple', [('op', 'Sub', pa, ('getattr', L, 'beginning')), None])
+
+        def device_access(base, index):
+            return base == ('getattr', L, 'mem') and index[0] == 'tuple' and len(index[1]) == 2 and \
+                index[1][0] == want_index[1][0] and size_ok(index[1][1])
         if not is_write:
-            zero = [r for r in ast.walk(fi.node) if isinstance(r, ast.Return) and r.value is not None and u(r.value) == '0']
-            good = False
-            for r in zero:
-                gz = dominating_tests(fi.node, r)
-                # `return 0` exactly on the controller-not-found side
-                if mcname is not None and any((p is False and u(t) in ('%s is not None' % mcname, mcname)) or
-                                              (p is True and u(t) in ('%s is None' % mcname, 'not %s' % mcname)) for t, p in gz):
-                    good = True
-            if not good or len(zero) != 1:
-                ok = False
-                run.violation('C16-U', m.relpath, fi.qualname, 'unmapped read', 'an unmapped address must read as 0')
-            conv = [c for c in ast.walk(fi.node) if isinstance(c, ast.Call) and u(c.func) == 'to_int']
-            if len(conv) != 1 or subst(conv[0].args[1], defs) not in ('size', 'memaddrdesc_size[1]'):
-                ok = False
-                run.violation('C16-U', m.relpath, fi.qualname, 'read conversion', 'the bytes read must be converted with '
-                              'to_int(data, size)')
+            leaves = split_writes([e for e in tr.events if e.kind == 'Return'])
+            kinds = set()
+            for e in leaves:
+                v = e.d['value']
+                if v == ('const', 0):
+                    kinds.add('zero')
+                    if not is_missing(e):
+                        bad('unmapped read', '0 is returned on a path where a controller was found (or the test is missing)')
+                elif v[0] == 'call' and v[1] == 'to_int' and len(v[2]) == 2:
+                    kinds.add('data')
+                    d = v[2][0]
+                    if not (d[0] == 'index' and device_access(d[1], d[2])):
+                        bad('device offset', 'the device must be read at exactly (physical address - beginning, size); found `%s`' % fmt(d)[:120])
+                    if not size_ok(v[2][1]):
+                        bad('read conversion', 'the bytes read must be converted with to_int(data, size)')
+                    if not is_found(e):
+                        bad('unmapped test', 'the device is read without the "controller found" test')
+                else:
+                    bad('read result', 'the hub returns `%s`: neither the converted device bytes nor 0' % fmt(v)[:100])
+            if kinds != {'zero', 'data'}:
+                bad('unmapped read', 'a read must return the device bytes when a controller covers the address and 0 otherwise')
         else:
-            conv = [c for c in ast.walk(fi.node) if isinstance(c, ast.Call) and u(c.func) == 'from_int']
-            if len(conv) != 1 or subst(conv[0].args[1], defs) not in ('size', 'memaddrdesc_size[1]') or \
-                    u(conv[0].args[0]) != fi.params()[2]:
-                ok = False
-                run.violation('C16-U', m.relpath, fi.qualname, 'write conversion', 'the stored bytes must be '
-                              'from_int(value, size)')
+            stores = [e for e in tr.events if e.kind == 'ItemStore']
+            if len(stores) != 1:
+                bad('delegation', 'expected exactly one delegated device store, found %d' % len(stores))
+            for e in stores:
+                if not device_access(e.d['base'], e.d['index']):
+                    bad('device offset', 'the device must be written at exactly (physical address - beginning, size)')
+                v = e.d['value']
+                if not (v[0] == 'call' and v[1] == 'from_int' and len(v[2]) == 2 and v[2][0] == ('name', fi.params()[2]) and size_ok(v[2][1])):
+                    bad('write conversion', 'the stored bytes must be from_int(value, size)')
+                if not is_found(e):
+                    bad('unmapped test', 'the device is written without the "controller found" test (unmapped addresses ignore writes)')
+        for e in tr.events:
+            if e.kind in ('ObjStore', 'ProcStore', 'SelfStore', 'New', 'Raise') or (e.kind == 'ItemStore' and not is_write):
+                bad('side effect', 'the hub has an effect besides the delegated device access: `%s`' % e.text()[:80])
         run.instance('C16-U', fi.qualname, obligations=4, ok=ok, sample={'function': fi.qualname})
+
+
+def check_hub(run, repo):
+    m = repo.module(HUB)
+    hub = m.classes.get('MemoryControllerHub')
+    if hub is None:
+        raise AnalysisError('anchor vanished: MemoryControllerHub')
+    check_hub_paths(run, repo, m, hub)
     # ---- statelessness ----------------------------------------------------------------
     ok = True
     for fi in hub.methods.values():
